@@ -275,7 +275,7 @@ impl Visitor for StandardLibraryVisitor<'_> {
                 .reference_at_byte(var.start_position().unwrap().bytes())
             {
                 if reference.resolved.is_some() {
-                    return;
+                    continue;
                 }
             }
 
